@@ -79,6 +79,8 @@ func (k *keyRegistry) add(pk tbls.PublicKey, owner string) (string, bool) {
 type oracleStats struct {
 	subsetsChecked int
 	exhaustive     bool
+	rejected       bool
+	rules          map[string]bool
 }
 
 // subsetsFor returns the t-subsets of 0..n-1 the oracle evaluates: all of them for n <= 6, otherwise
@@ -133,11 +135,11 @@ func subsetsFor(rng *rand.Rand, n, k int) ([][]int, bool) {
 
 // checkShares is the oracle of C11 on the per-node results of one successful ceremony.
 // results[i] is what node i (share index i+1) got back from the real ceremony code.
-func checkShares(c *kit.Case, cer ceremony, results [][]share.Share, sched any, reg *keyRegistry) oracleStats {
+func checkShares(c *kit.Case, cer ceremony, results [][]share.Share, sched any, reg *keyRegistry, sigSuffix string) (st oracleStats) {
 	r := c.R
 	n, t, v := cer.N, cer.T, cer.V
 	prefix := "dkg/" + cer.Engine + "/"
-	var st oracleStats
+	st.rules = map[string]bool{}
 
 	violated := false
 	viol := func(rule, what string, val int, extra map[string]any) {
@@ -153,7 +155,9 @@ func checkShares(c *kit.Case, cer ceremony, results [][]share.Share, sched any, 
 		for k, x := range extra {
 			w[k] = x
 		}
-		c.Violation(prefix+rule, fmt.Sprintf("%s (%s, validator %d)", what, cer, val), w)
+		st.rejected = true
+		st.rules[rule+sigSuffix] = true
+		c.Violation(prefix+rule+sigSuffix, fmt.Sprintf("%s (%s, validator %d)", what, cer, val), w)
 	}
 
 	// every node returns one share per validator
